@@ -95,3 +95,89 @@ def guarded(fn):
 
 def is_exc(r):
     return isinstance(r, dict) and "exc" in r
+
+
+# ---- full notes / melodies / chords with parts ---------------------------------
+from fractions import Fraction as _F
+DYN = {"n": 0.0, "ppp": 0.16, "pp": 0.26, "p": 0.36, "mp": 0.5, "mf": 0.65, "f": 0.8, "ff": 0.9, "fff": 0.95}
+DYN_Q = {"n": _F(0), "ppp": _F(16, 100), "pp": _F(26, 100), "p": _F(36, 100), "mp": _F(1, 2), "mf": _F(65, 100),
+         "f": _F(8, 10), "ff": _F(9, 10), "fff": _F(95, 100)}
+AMPFIG_C = {"n": "Fn", "ppp": "Fppp", "pp": "Fpp", "p": "Fp", "mp": "Fmp", "mf": "Fmf", "f": "Ff", "ff": "Fff", "fff": "Ffff"}
+
+
+def amp_live(a):
+    """amp field of a case: int, or a dynamics name (the float the library stores for it)"""
+    return 120 * DYN[a] if isinstance(a, str) else a
+
+
+def amp_q(a):
+    return 120 * DYN_Q[a] if isinstance(a, str) else _F(a)
+
+
+def mk_fnote(n):
+    """full note: kind, dir, val, oct, dur, mode, acc, amp, tags"""
+    from musiclang import Note, Silence, Continuation
+    k = n["kind"]
+    dur = _F(n.get("dur", 1))
+    tags = set(n.get("tags", []))
+    if k == "r":
+        return Silence(dur, tags=tags)
+    if k == "l":
+        return Continuation(dur, tags=tags)
+    return Note(k + n.get("dir", ""), n["val"], n["oct"], dur, mode=n.get("mode"), accident=n.get("acc"),
+                amp=amp_live(n.get("amp", 66)), tags=tags)
+
+
+def coq_fnote(n):
+    from harness.core import Qc
+    tags = L([S(t) for t in sorted(n.get("tags", []))])
+    return (f"(mkF {KIND_C[n['kind']]} {DIR_C[n.get('dir', '')]} {Z(n.get('val', 0))} {Z(n.get('oct', 0))} {Qc(_F(n.get('dur', 1)))} "
+            f"{O(n.get('mode'), lambda m: MODE_C[m])} {O(n.get('acc'), lambda a: ACC_C[a])} {Qc(amp_q(n.get('amp', 66)))} {tags})")
+
+
+def mk_melody(notes):
+    from musiclang import Melody
+    return Melody([mk_fnote(n) for n in notes])
+
+
+def coq_melody(notes):
+    return L([coq_fnote(n) for n in notes])
+
+
+def mk_fchord(c):
+    """chord dict with 'parts': [[name, [notes]], ...]"""
+    ch = mk_chord(c)
+    return ch(**{name: mk_melody(notes) for name, notes in c.get("parts", [])})
+
+
+def coq_fchord(c):
+    parts = L([T(S(name), coq_melody(notes)) for name, notes in c.get("parts", [])])
+    return f"(mkFC {coq_chord(c)} {parts})"
+
+
+def mk_score(chords):
+    from musiclang import Score
+    return Score([mk_fchord(c) for c in chords])
+
+
+def rand_fnote(rng, kinds="ssshhcbarlssxd", rel=0.15, plain=False):
+    k = rng.choice(kinds)
+    n = {"kind": k, "val": 0, "oct": 0, "dur": _F(1)}
+    if k in "rl":
+        pass
+    else:
+        n["val"] = rng.randrange(12 if k in "had" else 7)
+        n["oct"] = rng.choice([0, 0, 0, 1, -1, 2])
+        if k in "shcb" and rng.random() < rel:
+            n["dir"] = rng.choice("ud")
+        if not plain:
+            if k == "s" and not n.get("dir") and rng.random() < 0.2:
+                n["acc"] = rng.choice(ACCS)
+            if k in "sh" and rng.random() < 0.15:
+                n["mode"] = rng.choice(MODES)
+            if rng.random() < 0.3:
+                n["amp"] = rng.choice(list(DYN) + [30, 66, 90, 127])
+    if not plain and rng.random() < 0.1:
+        n["tags"] = sorted(rng.sample(["a", "b", "staccato"], rng.choice([1, 1, 2])))
+    n["dur"] = rng.choice([_F(1), _F(1), _F(1, 2), _F(1, 4), _F(3, 2), _F(2), _F(1, 3), _F(2, 3), _F(7, 3), _F(11, 8)])
+    return n
